@@ -58,18 +58,18 @@ def gen_node(ch, nm, depth, max_depth, fan, rich, parent_has_rest=False):
         for i in range(ch.choice([0, 0, 1, 2])):
             node["args"].append(dict(name="%sreq%d" % (name, i), kind="req", multi=False, desc=dsc(), default=None))
         if ch.flip(0.3):
-            node["args"].append(dict(name=name + "opt", kind="opt", multi=False, desc=dsc(), default=ch.choice([None, "dv"])))
+            node["args"].append(dict(name=name + "opt", kind="opt", multi=False, desc=dsc(), default=ch.choice([None, "dv"] + ([7, 0, 2.5, True] if rich else []))))
         if ch.flip(0.6):
             node["args"].append(dict(name=name + "rest", kind="opt", multi=True, desc=dsc(), default=None))
     for i in range(ch.choice([0, 1, 1, 2, 3]) if rich else ch.choice([0, 1, 2])):
         mode = ch.choice(["flag", "flag", "req", "opt", "multi"])
         default = None
         if mode == "opt" and ch.flip(0.5):
-            default = "od"
+            default = ch.choice(["od", 5, 0, False, 1.5]) if rich else "od"
         elif mode == "req" and ch.flip(0.3):
-            default = "rd"
+            default = ch.choice(["rd", 9, 0.5]) if rich else "rd"
         elif mode == "multi" and ch.flip(0.3):
-            default = ["m1", "m2"]
+            default = ch.choice([["m1", "m2"], [1, 2], []]) if rich else ["m1", "m2"]
         short = nm.short(ch)
         node["opts"].append(dict(long="%so%d" % (name, i), short=short, mode=mode, desc=dsc(), default=default,
                                  prefer=ch.choice(["auto", "long", "short"]) if short else "auto"))
